@@ -88,6 +88,10 @@ func parseWire(s string) (gwire, bool) {
 	if !oneOf(g.ctype, []string{"j", "t", "n"}) || !oneOf(g.body, gBodies) || !oneOf(g.tr, gTransports) {
 		return g, false
 	}
+	// a filter-ignoring listing that gets lost after the work was done is not a form of its own
+	if g.body == "xa" && g.tr == "c1" {
+		return g, false
+	}
 	// 204 and 304 cannot carry a body: nothing to shape, cut or stall inside
 	if (st == 204 || st == 304) && (g.body != "em" || g.tr == "c0" || g.tr == "c1" || g.tr == "sb") {
 		return g, false
@@ -1071,6 +1075,9 @@ func genWire(r *common.Rng, allowTiming bool) string {
 		if allowTiming {
 			tr = []string{"sh", "sb"}[r.Intn(2)]
 		}
+	}
+	if body == "xa" && tr == "c1" {
+		tr = "c0"
 	}
 	if st == 204 || st == 304 {
 		body = "em"
